@@ -17,7 +17,7 @@ SECOND_TIE = {
             "(Props/TiesFilter.lean: same tree, same consumed count, same error offset and length, for all inputs and all sufficient fuel); trusted boundary: "
             "_ATTRIBUTE_PATTERN.match = validAttr (tied by Props/Ties.lean), the re.sub-based _unpack_filter_value = the model's unescape, str.strip / encode",
     "translator": "py2lean.py",
-    "targets": ["Verif.Props.TiesFilter"],
+    "targets": ["Verif.Props.TiesFilter", "Verif.Props.TiesFilterStr"],
     "validate": "p_filtergen.py",
 }
 LEVEL = "proof"
